@@ -1,5 +1,5 @@
 """C17 — sequence-level compression: valid parses round-trip, invalid ones are refused."""
-RULE = ('4 source textures x {no delimiters, explicit delimiters} x repcode search {auto, on, off} x {no dictionary, prefix, CDict} x minMatch 3..7 x parse variants {own greedy parser; one '
+RULE = ('6 source textures (two with every other block a single-byte run) and a long-length family (literal run of 65535..65538 bytes followed by a repcode match, own parse and ZSTD_generateSequences output) x {no delimiters, explicit delimiters} x repcode search {auto, on, off} x {no dictionary, prefix, CDict} x minMatch 3..7 x parse variants {own greedy parser; one '
         'match crossing a block edge split at edge-1 / edge / edge+1 / every position within +-8; irregular explicit block sizes; ZSTD_generateSequences output; merged delimiters}: '
         'ZSTD_compressSequences must succeed and the frame must pass the reference decoder; with validateSequences=1 every sampled sequence gets each single-field corruption '
         '(offset = history at match start + 1, far offset, 2^31, match length 1/2/3, literal length + 1, delimiter removed / with match length / wrong length): structural-rule '
@@ -11,6 +11,7 @@ SRC = ['harness/c17_sequences.c', 'ref/edu_decoder.c']
 def run(vc, tier):
     c = vc.Check('C17', tier, 'exploration', RULE)
     c.run_vx_unit('c17-small', SRC, 'asan', ['--big', 0, '--D', 0], share=0.6)
+    c.run_vx_unit('c17-longlen', SRC, 'asan', ['--big', 2, '--D', 0, '--exec-timeout', 120000], share=0.6)
     if tier != 'quick':
         c.run_vx_unit('c17-128k', SRC, 'asan', ['--big', 1, '--D', 0, '--exec-timeout', 120000], share=0.9)
     c.extra['corruptions_judged'] = sum(r.stats.get('corruptions_judged', 0) for _, r, _ in c.units)
